@@ -19,6 +19,13 @@ Engine E1 (product-space enumeration).  Alphabet
   .T view), non-contiguous strided views (swapaxes view, every-second-element view); spectrum
   objects whose variables are stored column-major.
 
+* EVERY N in 8..180 through the object interface (mem, mem2/approximate): number and values of the
+  direction coordinate, e(f) / m0 round trip, validity;
+* call histories: [default calls] ; [a call with a custom solver_config (6 dicts x 3 solution
+  methods; thorough: also all ordered pairs) through estimate_directional_distribution] ; [the same
+  default calls] => bit-identical results, no exception, module defaults untouched.  Run in a fresh
+  interpreter so that a changed module state cannot leak into or come from other units.
+
 Quadruples are stacked along the frequency axis (and at most 9 rows along the leading axis),
 so one library call evaluates thousands of members; every member is still judged on its own.
 
@@ -45,7 +52,9 @@ RULE = (
     "N in {8,36} x variant; plus the coarse lattice x 4 wrap-in-the-interior grid orders (rolled by N/2, +1, -1, "
     "(grid+180)%360) x N in {8,9,36} x variant; plus the coarse lattice through 4 array shapes x memory layouts "
     "{C, Fortran, strided views} / single elements and through spectrum "
-    "objects in 4 layouts (batch vs. singleton, round trip, carried coordinates). A member (variant, N, grid, "
+    "objects in 4 layouts (batch vs. singleton, round trip, carried coordinates); plus the object round trip for every "
+    "N in 8..180 (mem, mem2/approximate); plus call histories [default ; custom solver_config call(s) ; default] over "
+    "6 configs x 3 solution methods in a fresh interpreter. A member (variant, N, grid, "
     "quadruple) is non-trivial when the quadruple is not (0,0,0,0) (an anisotropic distribution has to be built); "
     "distinct = distinct (variant, N, grid origin, quadruple); shape / layout re-runs of the same members are "
     "counted as evaluations only."
